@@ -1,5 +1,5 @@
 (* C15 -- facts about the generated model (GenStructCmp.v) that hold for the
-   pinned source and for the source with fixes/C15-struct-cmp-number-fallthrough.patch. *)
+   source before and after fix 24d7f1d (fixes/C15-struct-cmp-number-fallthrough.patch). *)
 From Coq Require Import ZArith NArith PeanoNat List Bool Lia Sorted.
 From PL.C15 Require Import ModelStd ModelPrelude GenStructCmp ProofsStd ProofsSort.
 Import ListNotations.
